@@ -11,6 +11,7 @@
       blueprint they share; it is checked by the stream-level correspondence and the oracle, not
       proved (see DESIGN.md, Appendix C).
 -/
+import Frrs.Proofs.Stanza
 import Frrs.Oracle
 import Frrs.Sim.Sim
 import Frrs.Props.C15
@@ -109,5 +110,21 @@ example : expectTree { path := { paths := [b!"src/"], invert := true } } t0 =
 example : renameOk { path := { renames := [(b!"src/a.md", b!"f"), (b!"drop/x", b!"f")] } }
     { commits := [{ mark := none, refname := [], origOid := none, headers := [], msg := [], parents := [], tree := t0 }] } = false := by
   decide +kernel
+
+/-! ### what the main loop does with a change line of a commit (for every input) -/
+
+/-- **every `D`/`C`/`R`/`deleteall` line (and every `M` line of a blob that is not stripped) of a commit passes through
+    `handleFileChangeLine` and nothing else**: kept lines are buffered rebuilt (selected, renamed: `change_line_M` …),
+    dropped lines leave no trace, and the commit is marked as having changes exactly when a line survives -/
+theorem change_line_in_commit (o : FOpts) (s : FState) (line inp : Bytes)
+    (hm : parseMarkLine line = none) (h1 : startsWith line b!"original-oid " = false) (h2 : startsWith line b!"data " = false)
+    (h3 : startsWith line b!"from " = false) (h4 : startsWith line b!"merge " = false)
+    (h5 : (startsWith line b!"M " || startsWith line b!"D " || startsWith line b!"C " || startsWith line b!"R " ||
+            line == b!"deleteall\n") = true) :
+    commitLine o s line inp =
+      (match handleFileChangeLine o.path line with
+       | some l => .cont { s.push l with hasChanges := true } inp
+       | none => .cont s inp) :=
+  commit_change_line o s line inp hm h1 h2 h3 h4 h5
 
 end Frrs.C01
